@@ -12,6 +12,7 @@ from gnpy.core.utils import db2lin
 from vf import attach, workload as W
 from vf.gen import common as G
 from vf.props import _prop_common as P
+from vf import stock
 
 ID = 'C01'
 RULE = ('cases: "ops" = random sequences (<=30) of attenuate/gain/add_ase/add_nli/demux+mux applied to generated '
@@ -23,15 +24,17 @@ RULE = ('cases: "ops" = random sequences (<=30) of attenuate/gain/add_ase/add_nl
 ASSUMPTIONS = ['launch power per channel <= +10 dBm (the property\'s own bound)',
                'in the operation fuzz the injected NLI is <= 0.5 x channel power',
                'floating point: |s+a+n-1| <= 1e-12, operation laws to 1e-12 relative']
-REQUIRED_COUNTERS = {'element_events': 50, 'op_events': 200, 'receiver_identity_checks': 20,
+REQUIRED_COUNTERS = {'stock_tests_run': 5, 'stock_element_events': 500, 'element_events': 50, 'op_events': 200, 'receiver_identity_checks': 20,
                      'shadow_steps': 200, 'receiver_reevaluations': 20}
-CASE_TIMEOUT = {'quick': 120, 'thorough': 300}
+CASE_TIMEOUT = {'quick': 400, 'thorough': 1800}
 
 
 def plan(tier, seed):
     n_ops, n_net = (96, 160) if tier == 'quick' else (1200, 2400)
     cases = [{'idx': i, 'kind': 'ops'} for i in range(n_ops)]
     cases += [{'idx': n_ops + i, 'kind': 'net', 'flavour': P.flavour(i)} for i in range(n_net)]
+    # the repository's own tests as one more workload, with the monitors on
+    cases += stock.stock_cases(tier, len(cases), ID)
     return cases
 
 
@@ -289,7 +292,9 @@ def run_net(case, ctx):
 
 
 def run_case(case, ctx):
-    if case['kind'] == 'ops':
+    if case['kind'] == 'stock':
+        stock.run_stock_case(case, ctx, ID)
+    elif case['kind'] == 'ops':
         run_ops(case, ctx)
     else:
         run_net(case, ctx)
